@@ -65,6 +65,8 @@ struct CR
     bool in_range() const { return r.head < size && r.tail < size && r.size == size; }
     string str() const
     {
+        if (size > 40)
+            return mc::fmt("size=%u head=%u tail=%u (reference holds %zu)", r.size, r.head, r.tail, ref.size());
         return mc::fmt("size=%u head=%u tail=%u buf=%s ref=[%s]", r.size, r.head, r.tail, mc::hex(buf, size).c_str(),
                        hexq(ref).c_str());
     }
@@ -86,7 +88,7 @@ struct Snap
     bool operator==(const Snap &o) const { return head == o.head && tail == o.tail && size == o.size && buf == o.buf; }
     string str() const
     {
-        if (!captured)
+        if (!captured || size > 40)
             return mc::fmt("(before the call: size=%u head=%u tail=%u)", size, head, tail);
         return mc::fmt("size=%u head=%u tail=%u buf=%s ref=[%s]", size, head, tail, mc::hex(buf.data(), buf.size()).c_str(), mc::hex(ref.data(), ref.size()).c_str());
     }
@@ -112,7 +114,8 @@ struct Heap
 };
 
 static int g_viols; // oracle failures so far in this process: a chain of steps stops at the first one (the reference has diverged)
-#define VIOL(...) (g_viols++, mc::violation(__VA_ARGS__))
+static const char *g_sigsfx = ""; // input class appended to every signature (the large-size sub-checks set ".size_ge_256" / ".size_ge_65536")
+#define VIOL(sig, ...) (g_viols++, mc::violation(string(sig) + g_sigsfx, __VA_ARGS__))
 static bool g_nt; // the current evaluation reached the interesting part (wrap / rejection / 0xFF)
 
 // ---- operations: performed on the real ring and on the reference, return values checked on the spot
@@ -232,7 +235,7 @@ static void op_move_head(CR &c, unsigned bias, bool one, uint8_t first_stamp)
         mc::harness_error("move_head(%u) beyond room", bias);
     for (unsigned i = 0; i < bias; i++)
     {
-        uint8_t b = (uint8_t)(first_stamp + i);
+        uint8_t b = (uint8_t)(first_stamp + i % 251); // period 251: slots 256 apart never hold the same byte
         c.buf[(c.r.head + i) % c.size] = (char)b;
         c.ref.push_back(b);
     }
@@ -286,7 +289,7 @@ static bool check_counts(CR &c, const string &p, const char *when)
     return true;
 }
 
-static void verify(CR &c, const char *opname)
+static void verify(CR &c, const char *opname, bool skip_getc_drain = false)
 {
     string p = string("C03.") + opname + ".post.";
     if (!check_counts(c, p, "after the operation"))
@@ -322,6 +325,7 @@ static void verify(CR &c, const char *opname)
         mc::crash_context("C03.harness");
     }
     // (a) drain with ring_getc, then one getc more (must be rejected)
+    if (!skip_getc_drain)
     {
         CR d(c);
         int v0 = g_viols;
@@ -343,7 +347,7 @@ static void verify(CR &c, const char *opname)
         CR d(c);
         std::vector<uint8_t> w(c.size + 1);
         for (unsigned i = 0; i < w.size(); i++)
-            w[i] = (uint8_t)(0xFE + i * 3); // fe 01 04 ...
+            w[i] = (uint8_t)(0xFE + (i % 251) * 3); // fe 01 04 ... (period 251: slots 256 apart never hold the same byte)
         int v0 = g_viols;
         op_write(d, w);
         if (g_viols == v0 && check_counts(d, p + "fill.", "after ring_write(size+1)"))
@@ -1291,6 +1295,420 @@ template <class T> static void uarray_case()
 }
 
 // ======================================================================================================
+// G. large sizes: an index, size or counter narrowed to 8 or 16 bits only misbehaves from 256 / 65536 slots on
+// ======================================================================================================
+static const char *size_class(unsigned size) { return size >= 65536 ? ".size_ge_65536" : size >= 256 ? ".size_ge_256" : ".size_ge_127"; }
+struct SigClass
+{
+    explicit SigClass(unsigned size) { g_sigsfx = size_class(size); }
+    ~SigClass() { g_sigsfx = ""; }
+};
+static std::vector<unsigned> uniq(std::vector<long> v, long lo, long hi)
+{ // the candidates inside [lo,hi], sorted, without repetition
+    std::vector<unsigned> o;
+    std::sort(v.begin(), v.end());
+    for (long x : v)
+        if (x >= lo && x <= hi && (o.empty() || o.back() != (unsigned)x))
+            o.push_back((unsigned)x);
+    return o;
+}
+// slot positions around 0, the 7/8/16-bit boundaries and the end of a ring of `size` slots
+static std::vector<unsigned> boundary_positions(unsigned size, bool few = false)
+{
+    long s = size;
+    if (few)
+        return uniq({0, 1, 255, 256, 257, 65535, 65536, s - 2, s - 1}, 0, s - 1);
+    return uniq({0, 1, 2, 126, 127, 128, 129, 254, 255, 256, 257, 65534, 65535, 65536, 65537, s - 2, s - 1}, 0, s - 1);
+}
+// transfer lengths / biases around the same boundaries
+static std::vector<unsigned> boundary_counts(unsigned size)
+{
+    long s = size;
+    std::vector<long> v = {0, 1, 127, 128, 254, 255, 256, 257, s - 1, s, s + 1};
+    if (size > 60000)
+        for (long x : {65535L, 65536L, 65537L})
+            v.push_back(x);
+    return uniq(v, 0, s + 1);
+}
+static uint8_t lstamp(unsigned j) { return (uint8_t) ~(j % 253); } // period 253
+static uint8_t wstamp(unsigned i) { return (uint8_t)(1 + i % 251); }
+
+static std::vector<St> g_bigstates;
+static const char *const BGRP[] = {"write(k)", "read(k)", "move_head(bias)", "move_tail(bias)", "putc run", "getc run"};
+
+static void big_cring_case()
+{
+    int si = mc::choose((int)g_bigstates.size());
+    int grp = mc::choose(6);
+    St s = g_bigstates[si];
+    unsigned size = s.size, avail = (s.head >= s.tail) ? s.head - s.tail : size + s.head - s.tail, room = size - 1 - avail;
+    SigClass sc(size);
+    mc::describe("ring size=%u head=%u tail=%u (avail %u), ops: %s at the boundary lengths", size, s.head, s.tail, avail, BGRP[grp]);
+    std::vector<unsigned> K = boundary_counts(size);
+    long n = 0, nt = 0;
+    auto eval = [&](const char *opname, unsigned amount, const std::function<void(CR &)> &f) {
+        CR c(size);
+        c.r.head = s.head;
+        c.r.tail = s.tail;
+        for (unsigned j = 0; j < avail; j++)
+        {
+            uint8_t b = lstamp(j);
+            c.buf[(s.tail + j) % size] = (char)b;
+            c.ref.push_back(b);
+        }
+        int v0 = g_viols;
+        f(c);
+        if (g_viols == v0)
+            verify(c, opname, size > 1000);
+        // non-trivial: an index or a count of this evaluation does not fit 8 bits
+        bool big = size >= 256 && (amount >= 255 || s.head >= 255 || s.tail >= 255 || (c.in_range() && (c.r.head >= 255 || c.r.tail >= 255)));
+        n++;
+        nt += big;
+    };
+    switch (grp)
+    {
+    case 0:
+        for (unsigned k : K)
+        {
+            std::vector<uint8_t> d(k);
+            for (unsigned i = 0; i < k; i++)
+                d[i] = wstamp(i);
+            eval("ring_write", k, [&](CR &c) { op_write(c, d); });
+        }
+        break;
+    case 1:
+        for (unsigned k : K)
+            eval("ring_read", k, [&](CR &c) { op_read(c, k); });
+        break;
+    case 2:
+    {
+        std::vector<long> bs;
+        for (unsigned k : K)
+            bs.push_back(std::min(k, room));
+        for (unsigned b : uniq(bs, 0, room))
+            eval("ring_move_head", b, [&](CR &c) { op_move_head(c, b, false, 0xFD); });
+        break;
+    }
+    case 3:
+    {
+        std::vector<long> bs;
+        for (unsigned k : K)
+            bs.push_back(std::min(k, avail));
+        for (unsigned b : uniq(bs, 0, avail))
+            eval("ring_move_tail", b, [&](CR &c) { op_move_tail(c, b, false); });
+        break;
+    }
+    case 4:
+    { // a run of single putc's long enough to carry head and the fill count over the 255/256 (65535/65536) boundary
+        unsigned run = std::min(room, 260u);
+        eval("ring_putc", run, [&](CR &c) {
+            int v0 = g_viols;
+            for (unsigned i = 0; i < run && g_viols == v0; i++)
+                op_putc(c, wstamp(i));
+            if (g_viols == v0 && run == room)
+                op_putc(c, 0xFF); // full now: must be rejected
+        });
+        eval("ring_move_head_one", run, [&](CR &c) {
+            for (unsigned i = 0; i < run; i++)
+                op_move_head(c, 1, true, wstamp(i));
+        });
+        break;
+    }
+    default:
+    {
+        unsigned run = std::min(avail, 260u);
+        eval("ring_getc", run, [&](CR &c) {
+            int v0 = g_viols;
+            for (unsigned i = 0; i < run && g_viols == v0; i++)
+                op_getc(c);
+            if (g_viols == v0 && run == avail)
+                op_getc(c); // empty now: must be rejected
+        });
+        eval("ring_move_tail_one", run, [&](CR &c) {
+            for (unsigned i = 0; i < run; i++)
+                op_move_tail(c, 1, true);
+        });
+        break;
+    }
+    }
+    if (nt)
+        mc::nontrivial();
+    mc::more_cases(n - 1, nt ? nt - 1 : 0);
+}
+
+// ---- igris::ring<int>(n) with 256 / 257 / 258 / 301 (thorough: 65536 / 65537) slots
+struct NB
+{
+    int n;
+    unsigned pos;
+};
+static std::vector<NB> g_bigtyped;
+
+static void big_typed_observe(TR<int> &t, const std::vector<unsigned> &B, const char *when, bool full_index_range = false)
+{
+    if (t.dead() || !t.counts(when))
+        return;
+    mc::crash_context("C03.typed_ring.observe.memory");
+    igris::ring<int> &ring = t.ring;
+    long sz = ring.size(), evals = 0, ntev = 0;
+    unsigned head = ring.r.head;
+    if (!t.live.empty())
+    {
+        if (!(ring.tail() == t.live.front()))
+            VIOL(t.tn("tail.value"), "%s: tail() is %d, oldest element is %d; %s", when, ring.tail(), t.live.front(), t.str().c_str());
+        if (!(ring.last() == t.live.back()))
+            VIOL(t.tn(head == 0 ? "last.value.head_at_0" : "last.value"), "%s: last() is %d, newest element is %d; %s", when, ring.last(), t.live.back(), t.str().c_str());
+    }
+    long W = (long)t.window, P = (long)t.pushed.size();
+    for (unsigned off : uniq({0, 1, 2, 254, 255, 256, 257, 65534, 65535, 65536, W - 2, W - 1, W}, 0, W))
+        for (unsigned cnt : uniq({0, 1, 2, 255, 256, 257}, 0, W - off))
+            for (int from_end = 0; from_end < 2; from_end++)
+            {
+                std::vector<int> got = ring.get_last((int)off, (int)cnt, from_end);
+                bool ok = got.size() == cnt;
+                for (unsigned i = 0; ok && i < cnt; i++)
+                    ok = got[i] == (from_end ? t.pushed[P - 1 - off - i] : t.pushed[P - cnt - off + i]);
+                evals++;
+                ntev += (off + cnt >= 255);
+                if (!ok)
+                    VIOL(t.tn(head < off + cnt ? "get_last.value.wraps_below_0" : "get_last.value"),
+                         "%s: get_last(offset=%u,count=%u,from_end=%d) does not address the %u..%u-th previous pushes; %s", when, off, cnt, from_end, off, off + cnt,
+                         t.str().c_str());
+            }
+    std::vector<long> idx = {0, 1, 2, 127, 128, 255, 256, 257, 65535, 65536, sz - 1, sz, sz + 1, 2 * sz - 1, 2 * sz};
+    for (size_t i = 0, e = idx.size(); i < e; i++)
+        idx.push_back(-idx[i]);
+    if (full_index_range && sz <= 400) // does not depend on the head position: once per case
+        for (long i = -2 * sz; i <= 2 * sz; i++)
+            idx.push_back(i);
+    for (long i : idx)
+    {
+        int got = ring.fixup_index((int)i), want = pmod(i, sz);
+        evals++;
+        ntev += (i <= -255 || i >= 255);
+        if (got != want)
+            VIOL(t.tn(i < 0 ? "fixup_index.negative" : "fixup_index.nonnegative"), "%s: fixup_index(%ld) on a ring of %ld slots = %d, want %d", when, i, sz, got, want);
+    }
+    for (unsigned a : B)
+        for (unsigned b : B)
+        {
+            int got = ring.distance((int)a, (int)b), want = pmod((long)a - (long)b, sz);
+            evals++;
+            ntev += (a >= 255 || b >= 255);
+            if (got != want)
+                VIOL(t.tn("distance.value"), "%s: distance(%u,%u) on a ring of %ld slots = %d, want %d", when, a, b, sz, got, want);
+        }
+    mc::more_cases(evals, ntev);
+    mc::outcome(mc::fmt("bigtyped head=%u avail=%zu", head, t.live.size()));
+    mc::crash_context("C03.harness");
+}
+
+static void big_typed_case()
+{
+    int ci = mc::choose((int)g_bigtyped.size());
+    int n = g_bigtyped[ci].n;
+    unsigned hb = g_bigtyped[ci].pos, sz = (unsigned)n + 1;
+    SigClass sc(sz);
+    mc::describe("igris::ring<int>(%d): head rotated to slot %u, then %d pushes through a full ring; accessors at every boundary position", n, hb, 2 * n + 3);
+    mc::nontrivial();
+    std::vector<unsigned> B = boundary_positions(sz);
+    auto at_boundary = [&](unsigned p) { return std::binary_search(B.begin(), B.end(), p); };
+    {
+        TR<int> t(n);
+        mc::crash_context("C03.typed_ring.push.memory");
+        for (unsigned i = 0; i < hb; i++)
+        {
+            t.push(i & 1);
+            t.pop();
+        }
+        big_typed_observe(t, B, "empty ring, head rotated", true);
+        for (int step = 0; step < 2 * n + 3 && !t.dead(); step++)
+        {
+            bool popped = (int)t.live.size() == n;
+            if (popped)
+                t.pop();
+            t.push(step & 1);
+            if (at_boundary(t.ring.r.head) || (popped && at_boundary(t.ring.r.tail)))
+                big_typed_observe(t, B, "while pushing through a full ring");
+        }
+        t.fill_and_drain("fill and drain");
+    }
+    // stamp every slot, make slot idx the newest: last()/get_last address backwards from it
+    for (unsigned idx : B)
+    {
+        TR<int> t(n);
+        for (unsigned i = 0; i < sz; i++)
+            t.ring.get((int)i) = 1000 + (int)i;
+        mc::crash_context("C03.typed_ring.set_last_index.memory");
+        t.ring.set_last_index((int)idx);
+        if (!t.idx_ok())
+            continue;
+        if (t.ring.head_index() != (int)((idx + 1) % sz))
+            VIOL("C03.typed_ring.set_last_index.head", "set_last_index(%u) on %u slots: head_index()=%d, want %u", idx, sz, t.ring.head_index(), (idx + 1) % sz);
+        if (t.ring.index_of(&t.ring.last()) != (int)idx)
+            VIOL(idx == sz - 1 ? "C03.typed_ring.last.slot.head_at_0" : "C03.typed_ring.last.slot", "after set_last_index(%u) on %u slots last() is slot %d", idx, sz,
+                 t.ring.index_of(&t.ring.last()));
+        long evals = 0;
+        for (unsigned off : uniq({0, 1, 2, 254, 255, 256, 257, 65535, 65536, (long)sz - 2, (long)sz - 1}, 0, sz))
+            for (unsigned cnt : uniq({0, 1, 2, 255, 256, 257}, 0, (long)sz - off))
+                for (int from_end = 0; from_end < 2; from_end++)
+                {
+                    std::vector<int> got = t.ring.get_last((int)off, (int)cnt, from_end);
+                    bool ok = got.size() == cnt;
+                    for (unsigned i = 0; ok && i < cnt; i++)
+                    {
+                        long back = from_end ? off + i : off + cnt - 1 - i;
+                        ok = got[i] == 1000 + pmod((long)idx - back, sz);
+                    }
+                    evals++;
+                    if (!ok)
+                        VIOL((long)((idx + 1) % sz) - (long)off - (long)cnt < 0 ? "C03.typed_ring.get_last.slot.wraps_below_0" : "C03.typed_ring.get_last.slot",
+                             "after set_last_index(%u) on %u slots get_last(offset=%u,count=%u,from_end=%d) does not return the slots backwards from %u", idx, sz, off, cnt, from_end, idx);
+                }
+        mc::more_cases(evals, evals);
+    }
+}
+
+// ---- cyclic_buffer<int>(n), n around 256 (thorough: around 65536)
+static std::vector<int> g_bign; // 255 256 257 300 (+ 65535 65536 65537)
+
+static void big_cyclic_case()
+{
+    int ch = mc::choose((int)g_bign.size() * 2);
+    int n = g_bign[ch / 2], via_resize = ch % 2;
+    SigClass sc((unsigned)n + 1); // the index that has to fit is n-1, the count n
+    mc::describe("cyclic_buffer<int>(%d)%s, %d pushes, [i] at the boundary distances after every push", n, via_resize ? " obtained by resize" : "", 2 * n + 3);
+    mc::nontrivial();
+    CB<int> c(via_resize ? 3 : n);
+    if (via_resize)
+    {
+        c.push();
+        c.push();
+        mc::crash_context("C03.cyclic_buffer.resize.memory");
+        c.cb.resize(n);
+        c.cap = n;
+        c.hist.clear();
+    }
+    const igris::cyclic_buffer<int> &ccb = c.cb;
+    long evals = 0;
+    for (int j = 0; j < 2 * n + 3; j++)
+    {
+        c.push();
+        mc::crash_context("C03.cyclic_buffer.observe.memory");
+        long want = std::min<long>(c.hist.size(), n);
+        if (c.cb.counter.counter < 0 || c.cb.counter.counter >= c.cb.counter.size || (size_t)c.cb.counter.size > c.cb.data.size())
+        {
+            VIOL("C03.cyclic_buffer.index_out_of_range", "after %zu pushes: counter=%d size=%d buffer slots=%zu", c.hist.size(), c.cb.counter.counter, c.cb.counter.size, c.cb.data.size());
+            return;
+        }
+        if ((long)c.cb.size() != want)
+        {
+            VIOL("C03.cyclic_buffer.size", "size()=%zu after %zu pushes into %d slots, want %ld", c.cb.size(), c.hist.size(), n, want);
+            return;
+        }
+        bool all = (j == n - 1 || j == n || j == 2 * n + 2) && n <= 400;
+        std::vector<unsigned> I = uniq({0, 1, 2, 126, 127, 128, 129, 253, 254, 255, 256, 257, 258, 65534, 65535, 65536, 65537, want - 2, want - 1}, 0, want - 1);
+        if (all)
+        {
+            I.clear();
+            for (long i = 0; i < want; i++)
+                I.push_back((unsigned)i);
+        }
+        for (unsigned i : I)
+        {
+            int a = c.cb[(int)i], b = ccb[(int)i], w = c.hist[c.hist.size() - 1 - i];
+            evals++;
+            if (a != w || b != w)
+            {
+                VIOL("C03.cyclic_buffer.index.value", "[%u] is %d (const: %d), the %u-th previous sample is %d (%zu pushes into %d slots, counter=%d)", i, a, b, i, w, c.hist.size(), n,
+                     c.cb.counter.counter);
+                return;
+            }
+        }
+    }
+    mc::more_cases(evals, evals);
+    mc::outcome(mc::fmt("bigcyclic %d", c.cb.counter.counter));
+    mc::crash_context("C03.harness");
+}
+
+// ---- ring_counter with size around 256 (thorough: around 65536)
+static std::vector<SC> g_bigsc;
+static void big_ring_counter_case()
+{
+    int ch = mc::choose((int)g_bigsc.size() * 5);
+    int i = ch / 5, fn = ch % 5;
+    int size = g_bigsc[i].size, cnt = g_bigsc[i].counter;
+    static const char *const FN[] = {"prev", "last", "fixup_pos", "increment", "set"};
+    SigClass sc((unsigned)size + 1); // the largest counter value is size-1
+    mc::describe("ring_counter size=%d counter=%d: ring_counter_%s at the boundary arguments", size, cnt, FN[fn]);
+    mc::nontrivial();
+    struct ring_counter rc;
+    ring_counter_init(&rc, size);
+    long s = size;
+    std::vector<long> args;
+    for (unsigned a : uniq({0, 1, 2, 127, 128, 254, 255, 256, 257, s - 1, s, s + 1, 2 * s - 1, 2 * s, 2 * s + 1, 3 * s, cnt, cnt + 1L}, 0, 3 * s))
+    {
+        args.push_back(a);
+        if ((fn == 1 || fn == 2) && a)
+            args.push_back(-(long)a);
+    }
+    long n = 0;
+    for (long a : args)
+    {
+        ring_counter_set(&rc, cnt);
+        if (ring_counter_get(&rc) != cnt)
+            VIOL("C03.ring_counter.set", "set(%d) size %d: counter=%d", cnt, size, ring_counter_get(&rc));
+        long got, want;
+        switch (fn)
+        {
+        case 0:
+            got = ring_counter_prev(&rc, (int)a);
+            want = pmod(cnt - a, size);
+            break;
+        case 1:
+            got = ring_counter_last(&rc, (int)a);
+            want = pmod(cnt - a, size);
+            break;
+        case 2:
+            got = ring_counter_fixup_pos(&rc, (int)a);
+            want = pmod(a, size);
+            break;
+        case 3:
+            ring_counter_increment(&rc, (int)a);
+            got = ring_counter_get(&rc);
+            want = pmod(cnt + a, size);
+            break;
+        default:
+            ring_counter_set(&rc, (int)a);
+            got = ring_counter_get(&rc);
+            want = pmod(a, size);
+            break;
+        }
+        n++;
+        if (got != want)
+            VIOL(mc::fmt("C03.ring_counter.%s.value%s", FN[fn], a < 0 ? ".negative_arg" : ""), "ring_counter_%s(counter=%d,size=%d, %ld) = %ld, want %ld", FN[fn], cnt, size, a, got, want);
+        if (fn < 3 && ring_counter_get(&rc) != cnt)
+            VIOL(mc::fmt("C03.ring_counter.%s.modifies", FN[fn]), "ring_counter_%s changed the counter %d -> %d", FN[fn], cnt, ring_counter_get(&rc));
+    }
+    if (fn == 3)
+    { // step once round the ring and on
+        ring_counter_set(&rc, cnt);
+        for (long j = 1; j <= 2 * s + 3; j++)
+        {
+            ring_counter_increment(&rc, 1);
+            n++;
+            if (ring_counter_get(&rc) != pmod(cnt + j, size))
+            {
+                VIOL("C03.ring_counter.increment.value", "ring_counter_increment(1) x %ld from counter=%d size=%d: counter=%d, want %d", j, cnt, size, ring_counter_get(&rc), pmod(cnt + j, size));
+                break;
+            }
+        }
+    }
+    mc::outcome(mc::fmt("bigrc %d", ring_counter_get(&rc)));
+    mc::more_cases(n - 1, n - 1);
+}
+
+// ======================================================================================================
 
 static void register_all(bool thorough)
 {
@@ -1310,6 +1728,32 @@ static void register_all(bool thorough)
         for (int c = 0; c < s; c++)
             g_sc.push_back({s, c});
 
+    std::vector<unsigned> bigsizes = {127, 128, 255, 256, 257, 300, 1000};
+    if (thorough)
+        for (unsigned x : {32767u, 32768u, 65535u, 65536u, 65537u})
+            bigsizes.push_back(x);
+    for (unsigned s : bigsizes)
+    {
+        std::vector<unsigned> P = boundary_positions(s, s > 1000);
+        for (unsigned h : P)
+            for (unsigned t : P)
+                g_bigstates.push_back({s, h, t});
+    }
+    g_bign = {255, 256, 257, 300};
+    if (thorough)
+        for (int x : {65535, 65536, 65537})
+            g_bign.push_back(x);
+    for (int n : g_bign)
+    {
+        if (n == 65537)
+            continue; // ring<int>(65535/65536) = 65536/65537 slots is the boundary for the typed ring
+        for (unsigned p : boundary_positions((unsigned)n + 1, n > 1000))
+            g_bigtyped.push_back({n, p});
+    }
+    for (int n : g_bign)
+        for (unsigned c : boundary_positions((unsigned)n, n > 1000))
+            g_bigsc.push_back({n, (int)c});
+
     mc::add_check("cring_every_state_every_op", cring_case);
     for (unsigned n = 2; n <= (thorough ? 6u : 5u); n++)
         mc::add_bfs(mc::fmt("cring_bfs_size%u", n), [n]() { return std::unique_ptr<mc::Model>(new CRingModel(n)); });
@@ -1319,6 +1763,10 @@ static void register_all(bool thorough)
     mc::add_check("cyclic_buffer_int", cyclic_case<int>);
     mc::add_check("cyclic_buffer_elem", cyclic_case<Elem>);
     mc::add_check("ring_counter", ring_counter_case);
+    mc::add_check("large_cring", big_cring_case);
+    mc::add_check("large_typed_ring_int", big_typed_case);
+    mc::add_check("large_cyclic_buffer_int", big_cyclic_case);
+    mc::add_check("large_ring_counter", big_ring_counter_case);
     mc::add_check("unbounded_array_int", uarray_case<int>);
     mc::add_check("unbounded_array_elem", uarray_case<Elem>);
 }
